@@ -128,7 +128,7 @@ def tracked_angles(B, sol, k):
     return res
 
 
-MODEL_FUNS = ["g", "g_dot", "W_g", "h", "la_c", "g_N", "E_pot", "gamma_F_norm"]
+MODEL_FUNS = ["g", "g_dot", "W_g", "h", "la_c", "la_tau", "g_N", "E_pot", "gamma_F_norm"]
 
 
 def eval_model(B, t, q, u):
@@ -158,6 +158,8 @@ def eval_model(B, t, q, u):
     }
     s.reset()
     out["h"] = s.h(t, q, u)
+    s.reset()
+    out["la_tau"] = s.W_tau(t, q).toarray() @ s.la_tau(t, q, u)
     gF = s.gamma_F(t, q, u)
     norms = []
     for c in B.contacts:
@@ -170,7 +172,7 @@ def eval_model(B, t, q, u):
 def culprit(B, fun):
     """Contribution class names that feed the system function ``fun``."""
     s = B.system
-    fam = {"g": "g", "g_dot": "g", "W_g": "g", "la_c": "c", "g_N": "g_N", "gamma_F_norm": "gamma_F", "h": "h", "E_pot": "E_pot"}[fun]
+    fam = {"g": "g", "g_dot": "g", "W_g": "g", "la_c": "c", "la_tau": "la_tau", "g_N": "g_N", "gamma_F_norm": "gamma_F", "h": "h", "E_pot": "E_pot"}[fun]
     names = sorted({type(c).__name__ for c in s.contributions if hasattr(c, fam) and callable(getattr(c, fam)) and type(c).__name__ not in ("RigidBody", "PointMass", "Force")})
     return "+".join(names) or "none"
 
@@ -249,21 +251,37 @@ def execute(plan, out, log):
                 # ---------------- re-initialise the copy
                 kw = {"options": SolverOptions(compute_consistent_initial_conditions=False)} if needs_relaxed else {}
                 classes = "+".join(sorted({type(c).__name__ for c in copy_sys.contributions if type(c).__name__ not in ("Frame", "Force")}))
+                rejected = None
                 try:
                     copy_sys.set_new_initial_state(qk, uk, t0=tk, **kw)
                 except AssertionError as e:
+                    rejected = e
+                except Exception as e:
+                    out["violations"].append(violation("reassemble_crash", classes, f"split {k}: set_new_initial_state raised {type(e).__name__}: {e}"))
+                    return
+                if rejected is not None and B.contacts and not kw and ("g_N" in str(rejected) or "consistent initial conditions does not converge" in str(rejected)):
+                    # RATTLE keeps a resting contact closed on position level while its gap rate decays geometrically
+                    # (g_N_dot+ = -e_N g_N_dot-): such a state is an impact configuration for the initial-condition
+                    # check and is rightly rejected (C16); it says nothing about the model -> restart relaxed
+                    if True:
+                        try:
+                            copy_sys.set_new_initial_state(qk, uk, t0=tk, options=SolverOptions(compute_consistent_initial_conditions=False))
+                            out["probes"]["restart_relaxed_contact_tolerance"] += 1
+                            rejected = None
+                        except AssertionError as e2:
+                            rejected = e2
+                if rejected is not None:
                     gk = B.system.g(tk, qk)
                     out["violations"].append(
                         violation(
                             "restart_rejected",
                             f"{name}/{culprit(B, 'g')}",
-                            f"split {k}: set_new_initial_state rejected the state reached by the run itself: {e} (|g(q_k)| of the original model = {float(np.max(np.abs(gk))) if gk.size else 0.0:.2e})",
+                            f"split {k}: set_new_initial_state rejected the state reached by the run itself: {rejected} (|g(q_k)| of the original model = {float(np.max(np.abs(gk))) if gk.size else 0.0:.2e})",
                         )
                     )
                     return
-                except Exception as e:
-                    out["violations"].append(violation("reassemble_crash", classes, f"split {k}: set_new_initial_state raised {type(e).__name__}: {e}"))
-                    return
+                # tracking state exactly as re-initialisation left it (the probes below disturb it)
+                tracker = [(c, c.n_full_rotations, c.previous_quadrant) for c in copy_sys.contributions if hasattr(c, "n_full_rotations")]
                 # ---------------- oracle 2: model identity
                 st = body_states(B, tk, qk, uk)
                 st["angle0"] = tracked_angles(B, ref, k)
@@ -288,20 +306,20 @@ def execute(plan, out, log):
                     gd_ref = B.system.g_dot(tp, qp, up)
                     vres = float(np.max(np.abs(gd_ref))) if gd_ref.size else 0.0
                     for f in MODEL_FUNS:
-                        if f in ("h", "la_c", "E_pot") and rev_law and j != k:
+                        if f in ("h", "la_c", "la_tau", "E_pot") and rev_law and j != k:
                             continue  # tracked angles are history dependent: only the restart state itself is comparable
                         a, h = np.asarray(A[f]), np.asarray(Hm[f])
                         if a.shape != h.shape:
                             out["violations"].append(violation("model_changed", f"{culprit(B, f)}/{f}", f"split {k}: {f} of the re-initialised copy has shape {a.shape}, the model at that state {h.shape}"))
                             return
                         d = float(np.max(np.abs(a - h))) if a.size else 0.0
-                        tol_f = tol_m * (10 if f in ("W_g", "h", "E_pot", "g_dot") else 1)
+                        tol_f = tol_m * (10 if f in ("W_g", "h", "la_tau", "E_pot", "g_dot") else 1)
                         if f == "g_dot":
                             # equivalent joint definitions differ at first order in the velocity-constraint residual
                             tol_f += 10 * vres
                         if d > tol_f:
                             sig = f"{culprit(B, f)}/{f}"
-                            if f in ("h", "la_c", "E_pot") and rev_law:
+                            if f in ("h", "la_c", "la_tau", "E_pot") and rev_law:
                                 # is the difference explained by lost full turns of a tracked revolute angle?
                                 turns = []
                                 for jj, ang in st["angle0"].items():
@@ -330,8 +348,8 @@ def execute(plan, out, log):
                             return
                 # the probes above queried history-dependent joint angles at other states: put the
                 # copy back into the tracking state that re-initialisation left it in
-                copy_sys.reset()
-                copy_sys.h(tk, qk, uk)
+                for c, nfr, pq in tracker:
+                    c.n_full_rotations, c.previous_quadrant = nfr, pq
                 # ---------------- second leg (oracle 1)
                 class _B:
                     pass
@@ -342,8 +360,14 @@ def execute(plan, out, log):
                 B2.contacts = Bc.contacts
                 B2.joints = [name_to[j.name] for j in B.joints]
                 B2.laws = [name_to[l.name] for l in B.laws]
+                n_failed_before = len(sim.failed_instances())
                 R2 = _run(B2, spec, sim, N - k)
                 out["steps"] += N - k
+                if len(sim.failed_instances()) > n_failed_before:
+                    # the solver itself reported non-convergence in the second leg (relaxed restarts start
+                    # from zero accelerations / multipliers): not silent, and not a statement about the model
+                    out["probes"]["second_leg_nonconvergence"] += 1
+                    continue
                 if R2.exc is not None:
                     out["violations"].append(violation("restart_diverges", f"{name}/raised", f"split {k}: the continued run raised {type(R2.exc).__name__}: {R2.exc}"))
                     return
@@ -358,12 +382,48 @@ def execute(plan, out, log):
                 log.ev("leg2", k, dq, du)
                 out["probes"]["split_executed"] += 1
                 tol = 1e-6 * scale
-                if dtm > 1e-9 or dq > tol or du > 100 * tol:
+                mismatch = dtm > 1e-9 or dq > tol or du > 100 * tol
+                if B.contacts and dtm <= 1e-9:
+                    # Nonsmooth runs depend discontinuously on round-off at contact events (an activation one step
+                    # earlier or later; the uninterrupted run carries warm starts the restart cannot have), so the
+                    # comparison with the uninterrupted run is ill-posed there.  Sound proxy: the same solver on a
+                    # system the harness builds itself at the restart state - both are cold starts from one state.
+                    if mismatch:
+                        out["probes"]["contact_run_differs_from_uninterrupted"] += 1
+                    tw = _C()
+                    tw.system, tw.contacts = Bh.system, Bh.contacts
+                    Rt = _run(tw, spec, sim, N - k)
+                    out["steps"] += N - k
+                    mismatch = False
+                    if Rt.exc is None and len(Rt.sol.t) == len(s2.t):
+                        dq = float(np.max(np.abs(np.asarray(s2.q)[:m] - np.asarray(Rt.sol.q)[:m])))
+                        du = float(np.max(np.abs(np.asarray(s2.u)[:m] - np.asarray(Rt.sol.u)[:m])))
+                        out["probes"]["contact_twin_compared"] += 1
+                        mismatch = dq > tol or du > 100 * tol
+                if mismatch:
+                    if rev_law:
+                        # a tracked revolute angle that leaves the range a freshly reset joint can represent
+                        # (relative rotation in (-pi/2, 3pi/2)) during the second leg is the open turn-count finding
+                        lost = []
+                        for jj in st["angle0"]:
+                            a0 = B.scene["joints"][jj].get("angle0", 0.0)
+                            rel = [tracked_angles(B, ref, i)[jj] - a0 for i in range(k, N + 1)]
+                            if min(rel) < -0.5 * np.pi + 0.1 or max(rel) > 1.5 * np.pi - 0.1:
+                                lost.append(jj)
+                        if lost:
+                            out["violations"].append(
+                                violation(
+                                    "model_changed",
+                                    "Revolute/turns/restart_diverges",
+                                    f"split {k}: the continued run diverges (|dq|={dq:.3e}) and the tracked angle of revolute joint(s) {lost} leaves the range a re-initialised joint can represent during the second leg",
+                                )
+                            )
+                            return
                     out["violations"].append(
                         violation(
                             "restart_diverges",
                             f"{name}/{culprit(B, 'h')}|{culprit(B, 'g')}|{culprit(B, 'g_N')}",
-                            f"split {k}: continued run differs from the uninterrupted run by |dq|={dq:.3e}, |du|={du:.3e}, |dt|={dtm:.1e} (tol {tol:.1e}) over {m - 1} steps",
+                            f"split {k}: continued run differs from {'a cold start of the same model built by the harness at the restart state' if B.contacts else 'the uninterrupted run'} by |dq|={dq:.3e}, |du|={du:.3e}, |dt|={dtm:.1e} (tol {tol:.1e}) over {m - 1} steps",
                         )
                     )
                     return
